@@ -6,6 +6,7 @@
   (any number of autocorrelation rounds), any column length, any pattern of missing cells.
 -/
 import EEM.Model.HourlyPrep
+import EEM.Gen.PrepPlan
 import Mathlib.Tactic.Linarith
 
 namespace EEM.Props.C17
@@ -275,6 +276,55 @@ theorem C17_gap_free (first last : Int) (h : first ≤ last) (hd : (last - first
     rw [List.getElem?_range (by omega), List.getElem?_range (by omega)]
     simp only [Option.map_some, Option.some.injEq]
     omega
+
+/-! ### Tie to the source (T1): the preparation plan, regenerated on every run from `hourly/data.py`,
+`common/hourly_interpolation.py` and `data_processor_utilities.py` -/
+
+section Source
+open EEM.Gen.PrepPlan
+
+/-- The stages of `_set_data` that write the frame are, in this order: copy of the caller's frame, index checks, index unit,
+zero → missing, duplicate removal, whole-day reindex, interpolation (with flags), PV start column — the order the hand model
+composes `zeroToMissing`, `dedupe`, `reindex`, `interpolateCol`, `flags` in.  In particular zeros are blanked BEFORE the
+duplicates are resolved and before the snapshot of missing cells, so a zero electric reading is filled and flagged like any gap, and
+the frame is a copy from the first statement on. -/
+theorem C17_src_stage_order :
+    stages = ["copy", "index_checks", "ns_index", "zero_to_missing", "remove_duplicates", "contiguous", "interpolate",
+              "pv_start", "return"] := by decide
+
+/-- the zero rule as written: only under `is_electricity_data`, only the `observed` column, cells equal to 0 become NaN -/
+theorem C17_src_zero_rule :
+    zeroRule = ("self.is_electricity_data", "observed", "df['observed']", "== 0", "np.nan") := by decide
+
+/-- duplicate timestamps keep their FIRST row: the source selects the negation of `index.duplicated(keep="first")`
+(`C17_duplicates_keep_first` is about `dedupe`, which keeps the first) -/
+theorem C17_src_duplicates_keep_first : dedupKeep = ("first", true) := by decide
+
+/-- whole local days: the first stamp is rounded down to hour 0 and the last up to hour 23 of their own days, the range between them
+is hourly, and the frame is reindexed onto it (`hourlyRange` / `reindex` of the model; `C17_gap_free`) -/
+theorem C17_src_whole_days :
+    dayEdges = [("earliest_datetime", "df.index.min()", "hour=0, minute=0, second=0, microsecond=0"),
+                ("latest_datetime", "df.index.max()", "hour=23, minute=0, second=0, microsecond=0")]
+    ∧ rangeArgs = ("earliest_datetime", "latest_datetime", "'h'") ∧ reindexed = true := by decide
+
+/-- temperature and usage are always prepared, irradiance when present; a column is skipped only when absent or already
+flagged by the caller -/
+theorem C17_src_columns :
+    defaultCols = ["temperature", "observed"] ∧ conditionalCols = [("'ghi' in df.columns", "ghi")]
+    ∧ skipConditions = ["col not in df.columns", "interp_bool_col in df.columns"] := by decide
+
+/-- the fall-back stages are time interpolation, forward fill, backward fill — in this order, each on the whole column
+(`interpolateCol`), and the flag is "was missing before ANY filling and is present now" (`flags`): the snapshot of missing cells is
+taken before the first statement that writes the column, the flag column starts all-False and is set after the last filling -/
+theorem C17_src_fill_stages_and_flag :
+    backupStages = ["time", "ffill", "bfill"]
+    ∧ backupStatements = [("time", "df[col] = df[col].interpolate(method='time', limit_direction='both')"),
+                          ("ffill", "df[col] = df[col].ffill()"), ("bfill", "df[col] = df[col].bfill()")]
+    ∧ flagSnapshot = "idx_missing = df.loc[df[col].isna()].index" ∧ snapshotBeforeFilling = true
+    ∧ flagInit = "df[interp_bool_col] = False"
+    ∧ flagSet = "df.loc[df.index.isin(idx_missing) & ~df[col].isna(), interp_bool_col] = True" := by decide
+
+end Source
 
 /-! ### Non-vacuity -/
 example : interpolateCol (α := Nat) [] (fun _ => none) [none, some 3, none, none, some 5, none]
